@@ -3,6 +3,33 @@
 import vlib, hist
 
 ID = "C05"
+MANIFEST = {
+    "text": "Theorems (Coq; LTS Conc/CondMutex.v = one ABTI_cond + the mutex it is bound to, whose mutex component IS a state of the "
+            "C04 LTS and moves only by Mutex.step; labels = the ABT_VERIF hook records; every number of ULT/external/tasklet callers, "
+            "every interleaving, any clock): the mutex inside every reachable state is a reachable C04 state (all C04 theorems "
+            "reused, not re-proved); atomic release-and-wait (a caller inside wait/timedwait that no longer owns the mutex holds the "
+            "cond lock or is already queued; no SIGNAL/WAKE/BCAST step is enabled between its mutex release and its enqueue; a "
+            "signaller owning the mutex and the cond lock finds every waiting caller queued); SIGNAL dequeues exactly the head or "
+            "nobody, a broadcast wakes exactly the callers queued when it took the cond lock, in order; a wait returns ABT_SUCCESS "
+            "only with a credit given by a SIGNAL/WAKE since its enqueue and consumes it, ABT_ERR_COND_TIMEDOUT only for a "
+            "timedwait, without credit and after the test now>=deadline; the return step ends a complete ABTI_mutex_lock program "
+            "started after the wake-up (caller = lock-word holder); #SIGNAL/WAKE records naming x = #successful returns of x (+1 iff x "
+            "is past the wait list and about to return). Tie: real executions in monitor discipline (ULT/external/tasklet callers, "
+            "1-4 streams, timed waits under a virtual clock, signal/broadcast/naked signals/wrong-mutex waits) are recorded as a "
+            "totally ordered history of atomic actions and replayed through the extracted step function; independent monitors on the "
+            "raw history (returns<=credits per waiter, lock-word owner at wait return, TIMEDOUT vs clock, FIFO wake order, lost "
+            "update, stuck caller). Fair termination is not claimed; one LTS instance = one cond + its mutex (two conds sharing a "
+            "mutex are not replayed together).",
+    "note": "Trusted: Coq kernel; extraction; the LTS abstraction (spinlock-protected sections as atomic steps, SC memory); hook "
+            "placement and the trace lock; blocking (futex, context switch) abstracted to program points (C02/C11); the cond wait "
+            "list is a list of (waiter, timed) - its pointer-level representation and the unlink on timeout are C19 (DS/Waitlist.v); "
+            "the clock read of the deadline test leaves no record and is checked at the TIMEOUT record (sound for a monotone "
+            "clock). API contract assumed by the model: wait is called by the mutex owner, recursive mutex locked once. Observation: "
+            "p_waiter_mutex is never reset, so a cond stays bound to its first mutex for life (later waits with another mutex get "
+            "ABT_ERR_INV_MUTEX even when nobody waits) - modelled as is.",
+    "technique": "Coq proof of an inductive invariant over a parametric LTS composed with the C04 mutex LTS (projection lemma) + "
+                 "history conformance (recorded hook events replayed by the extracted step function)",
+}
 
 
 def gen_race(rng):
@@ -24,9 +51,26 @@ def gen_race(rng):
     return "\n".join(lines) + "\n"
 
 
+def gen_storm(rng):
+    """several external (futex) waiters against a burst of signals: every signal wakes all sleepers, the non-chosen ones
+    re-check under the cond lock (program points CEW <-> CES, CER -> CEWr)"""
+    nes = rng.choice([0, 1])
+    lines = ["SEED %d" % rng.randint(1, 10**9), "NES %d" % nes, "WATCHDOG 10", "VCLOCK 1",
+             "PAIR 0 %s %s" % (rng.choice(["plain", "rec", "static"]), rng.choice(["dyn", "static"]))]
+    nw = rng.randint(3, 4)
+    for t in range(nw):
+        lines.append("THREAD %d E 0 : %s" % (t, " ".join(["A0"] * rng.randint(3, 6))))
+    toks = ["Z1"] + [rng.choice(["P0", "P0", "P0", "N0", "p0"]) for _ in range(rng.randint(12, 28))] + ["Z2", "C0"]
+    lines.append("THREAD %d %s 0 : %s" % (nw, rng.choice("UE"), " ".join(toks)))
+    return "\n".join(lines) + "\n"
+
+
 def gen_scenario(rng, big=False):
-    if rng.random() < 0.15:
+    r0 = rng.random()
+    if r0 < 0.15:
         return gen_race(rng)
+    if r0 < 0.22:
+        return gen_storm(rng)
     nes = rng.choice([0, 1, 2, 3])
     npair = rng.choice([1, 1, 2, 3])
     mk = [rng.choice(["plain", "plain", "rec", "static", "static_rec"]) for _ in range(npair)]
@@ -105,7 +149,7 @@ def gen_scenario(rng, big=False):
 
 
 def gen(rng, tier):
-    n = 220 if tier == "quick" else 2500
+    n = 220 if tier == "quick" else 8000
     return [gen_scenario(rng, big=(tier != "quick" and i % 3 == 0)) for i in range(n)], {"scenarios": n}
 
 
@@ -117,7 +161,10 @@ def run(tier, seed, replay):
              "(plain/recursive/static mutexes, dynamic/static conds), wait / timedwait under the virtual clock with deadlines in "
              "the past, near and far / signal inside and outside the mutex / broadcast / naked signals / wrong-mutex waits; every "
              "scenario ends with a closing broadcast per pair; every history replayed through the extracted LTS; non-trivial = all",
-        extra_assumptions=["blocking (futex / context switch) is abstracted to program points; context-switch correctness is C02/C11",
+        extra_assumptions=["a watchdog stop counts as a failure of this property only if an unfinished caller is blocked on the "
+                           "objects under test with nothing left to wake it (queued in the cond after the closing thread finished, "
+                           "or queued in the mutex with lock word and waiter_lock free); otherwise it is reported as starved",
+                           "blocking (futex / context switch) is abstracted to program points; context-switch correctness is C02/C11",
                            "the cond wait list is modelled as a list of (waiter, timed); its pointer-level representation and the "
                            "unlink on timeout are C19 (DS/Waitlist.v)",
                            "virtual clock: the deadline test reads a monotone clock without a record; the TIMEOUT record is checked "
